@@ -217,7 +217,7 @@ Proof.
   - intros u s0. unfold upd. destruct (Nat.eqb_spec u t) as [->|Hu]; cbn.
     + intros E. apply sto_id_inj in E. subst s0. rewrite Nat.eqb_refl. repeat split. apply (ensure_gt (cB cf) (csize x s) k0 HB).
     + intros E. destruct (i_cache _ I _ _ E) as (A & B & C). repeat split; auto.
-      destruct (Nat.eqb_spec s0 s); [subst s0|exact C]. pose proof (ensure_ge (cB cf) (csize x s) k0). Show. lia.
+      destruct (Nat.eqb_spec s0 s) as [e|]; [rewrite e in C|exact C]. pose proof (ensure_ge (cB cf) (csize x s) k0). lia.
   - intros s0 k o Hk. apply (i_mem _ I). destruct Hk as [Hk|Hk]; [left; lia|]. right.
     revert Hk. upd_tac; [|auto]. pose proof (ensure_ge (cB cf) (csize x s) k0). lia.
   - intros s0. upd_tac.
